@@ -23,6 +23,7 @@ type SCtx struct {
 	inOld      bool
 	pkg        *types.Package
 	depth      int
+	atBlock    *ssa.BasicBlock // program point for binding source-level locals
 }
 
 var mathInt = types.Typ[types.UntypedInt]
@@ -166,7 +167,7 @@ func (sc *SCtx) ident(name string) (Val, error) {
 		}
 		// source-level locals are visible only to loop invariants (and closures see
 		// their captured variables); elsewhere a stray name must not bind silently
-		if sc.loopHeader != nil || len(sc.g.Fn.FreeVars) > 0 {
+		if sc.loopHeader != nil || sc.atBlock != nil || len(sc.g.Fn.FreeVars) > 0 {
 			if v, ok := sc.localVar(name); ok {
 				return v, nil
 			}
@@ -264,6 +265,9 @@ func (sc *SCtx) localVar(name string) (Val, bool) {
 			if !c.Block.Dominates(sc.loopHeader) || g.cfg.Loops[sc.loopHeader].Blocks[c.Block] {
 				continue
 			}
+		}
+		if sc.atBlock != nil && !c.Block.Dominates(sc.atBlock) {
+			continue
 		}
 		if best == nil || best.Block.Dominates(c.Block) {
 			best = c
